@@ -112,7 +112,7 @@ class AstNode(object):
         * namespace member
         * enumerator
         """
-        raise NotImplemented  # virtual function
+        raise NotImplementedError  # virtual function
 
     def unqualified_lookup(self, name):
         """Look for symbols within a scope.
@@ -121,7 +121,7 @@ class AstNode(object):
         right of a scope resolution operator '::'.  This is the current
         scope, self.symbols, and any scopes added via a 'using' statement.
         """
-        raise NotImplemented  # virtual function
+        raise NotImplementedError  # virtual function
 
 
 ######################################################################
